@@ -204,3 +204,51 @@ func (e *fqEngine) runBatch(progs []string, inputs []any) ([][]Obs, error) {
 	}
 	return res, nil
 }
+
+// runBatchRobust is runBatch that cannot fail: a batch that breaks as a whole (a
+// Go panic, an error `try` cannot catch, a compile error only fq reports) is
+// bisected until the offending programs are isolated; those are evaluated
+// unbatched. unbatched[j] tells which programs that happened to.
+func (e *fqEngine) runBatchRobust(progs []string, inputs []any) (obs [][]Obs, unbatched map[int]bool) {
+	obs = make([][]Obs, len(inputs))
+	for i := range obs {
+		obs[i] = make([]Obs, len(progs))
+	}
+	unbatched = map[int]bool{}
+	var rec func(lo, hi int)
+	rec = func(lo, hi int) {
+		if lo >= hi {
+			return
+		}
+		if hi-lo == 1 {
+			if res, err := e.runBatch(progs[lo:hi], inputs); err == nil {
+				for i := range inputs {
+					obs[i][lo] = res[i][0]
+				}
+				return
+			} else if _, isPanic := fqrun.IsPanic(err); isPanic {
+				e.reset()
+			}
+			unbatched[lo] = true
+			for i, in := range inputs {
+				obs[i][lo], _ = e.run(progs[lo], in)
+			}
+			return
+		}
+		res, err := e.runBatch(progs[lo:hi], inputs)
+		if err == nil {
+			for i := range inputs {
+				copy(obs[i][lo:hi], res[i])
+			}
+			return
+		}
+		if _, isPanic := fqrun.IsPanic(err); isPanic {
+			e.reset()
+		}
+		mid := (lo + hi) / 2
+		rec(lo, mid)
+		rec(mid, hi)
+	}
+	rec(0, len(progs))
+	return obs, unbatched
+}
